@@ -115,6 +115,16 @@ def check_case(chk: Check, plan: Plan, case: dict, seed: int):
                         problems.append(f"ls {variant!r} raised {e}")
                     elif "was not found" in o or not plan.ident(k, o):
                         problems.append(f"ls {variant!r} does not show item #{k} ({names[k]!r}): {o[:120]!r}")
+            # separator runs (Names.tla tokeniser: one separator is '/', '\\' or '\\\\'): a longer run holds an empty component,
+            # which is the name of no item - such a path is not a join of printed names and must say so
+            if k == 0 or len(nm) % 2:
+                for run in ("\\" * 3, "\\" * 5, "//"):
+                    for variant in {plan.prefixes[0] + nm + run, plan.prefixes[0] + nm + run + "x"} | ({plan.prefixes[0].replace("/", run, 1) + nm} if "/" in plan.prefixes[0].rstrip("/") + "/" and plan.prefixes[0].count("/") else set()):
+                        o, e = safe_ls(image, variant)
+                        if e:
+                            problems.append(f"ls {variant!r} raised {e}")
+                        elif "was not found" not in o:
+                            problems.append(f"ls {variant!r} holds an empty path component, yet it resolved: {o[:100]!r}")
         for pr in case["probes"]:
             text = naming.S(pr["text"])
             if pr["blank"]:
